@@ -197,7 +197,7 @@ class NetWorld(World):
             return {"op": "remap", "s": s, "slot": slot, "noise": r.choice([1, 10, 50]),
                     "radius": self._gen_radius(r), "tcost": r.choice([1, 10])}
         return {"op": "map", "s": s, "slot": slot, "obs": self._gen_track(r, m), "noise": r.choice([1, 10, 50]),
-                "radius": self._gen_radius(r), "tcost": r.choice([1, 10]), "coll": r.random() < 0.2}
+                "radius": self._gen_radius(r), "tcost": r.choice([1, 10]), "coll": r.random() < 0.3}
 
     def _gen_cut(self, r, m):
         d = [v for v in self._fw(m).values() if v not in (0, INF)]
@@ -627,34 +627,52 @@ class NetWorld(World):
         if last is not None and last != s:
             self.probe("alternation_of_two_networks")
         self._last_map_session = s
-        snap = [(o.position.getX(), o.position.getY(), o.position.getZ(), o.timestamp.toAbsTime()) for o in tr]
         radius = st["radius"]
+        group = [(tr, obs)]
+        if st.get("coll"):
+            other = self.tracks.get((s, 1 - st.get("slot", 0)))
+            if other is not None and other["real"] is not tr:
+                group.append((other["real"], other["obs"]))
+                self.probe("collection_of_two_tracks")
+        snaps = [[(o.position.getX(), o.position.getY(), o.position.getZ(), o.timestamp.toAbsTime()) for o in g]
+                 for g, _ in group]
         on_vertical = False
-        for (x, y) in obs:
-            for e in m["edges"]:
-                for a, b in zip(e["pts"], e["pts"][1:]):
-                    if a[0] == b[0] == x:
-                        on_vertical = True
+        for _, ob in group:
+            for (x, y) in ob:
+                for e in m["edges"]:
+                    for a, b in zip(e["pts"], e["pts"][1:]):
+                        if a[0] == b[0] == x:
+                            on_vertical = True
         if on_vertical:
             self.probe("on_vertical")
-        arg = TrackCollection([tr]) if st.get("coll") else tr
+        arg = TrackCollection([g for g, _ in group]) if st.get("coll") else tr
         _, exc = self.call(mapOnNetwork, arg, net, st["noise"], st["tcost"], radius)
         if exc is not None:
             import traceback
             tb = traceback.extract_tb(exc.__traceback__)
             frame = tb[-1].name if tb else "?"
             return self._unexpected("C10", exc, where, frame=frame, on_vertical=on_vertical)
+        total = 0
+        for (g, ob), snap in zip(group, snaps):
+            nm = self._judge_mapping(g, ob, snap, m, radius, where)
+            if nm is None:
+                return
+            total += nm
+        self.stats["matched_observations"] += total
+        self.observed([total, sum(len(ob) for _, ob in group)])
+
+    def _judge_mapping(self, tr, obs, snap, m, radius, where):
         after = [(o.position.getX(), o.position.getY(), o.position.getZ(), o.timestamp.toAbsTime()) for o in tr]
         if after != snap:
             self.fail("C10", "map.track_changed", where + ": positions / timestamps of the track changed", snap, after)
-            return
+            return None
         nmatched = 0
         for k, (x, y) in enumerate(obs):
             inf = tr["hmm_inference", k]
             if not (isinstance(inf, tuple) and len(inf) == 4):
                 self.fail("C10", "map.state", where + ": inferred state of observation %d" % k,
                           "(point, edge, ds, dt)", repr(inf))
-                return
+                return None
             p, e, ds, dt = inf
             if e == -1:
                 self.probe("unmatched_observation")
@@ -663,7 +681,7 @@ class NetWorld(World):
             if not (isinstance(e, int) and 0 <= e < len(m["edges"])):
                 self.fail("C10", "map.edge", where + ": observation %d refers to edge number %r" % (k, e),
                           "0..%d" % (len(m["edges"]) - 1), e)
-                return
+                return None
             pts = m["edges"][e]["pts"]
             q = (p.getX(), p.getY())
             L = plen(pts)
@@ -673,22 +691,21 @@ class NetWorld(World):
                 self.fail("C10", "map.on_edge", where + ": matched point of observation %d is not on edge %d (%s)"
                           % (k, e, m["edges"][e]["id"]), "distance to the edge geometry <= %g" % tol, best,
                           point=list(q))
-                return
+                return None
             do = math.dist(q, (x, y))
             if do > radius + 1e-9:
                 self.fail("C10", "map.radius", where + ": matched point of observation %d is farther than the search "
                           "radius" % k, radius, do)
-                return
+                return None
             if abs(ds + dt - L) > 1e-6 * max(1.0, L):
                 self.fail("C10", "map.sum", where + ": distances to the two end nodes of edge %d do not add up to its "
                           "length (observation %d)" % (e, k), L, [ds, dt])
-                return
+                return None
             if not any(abs(ds - a) <= 2e-6 * max(1.0, L) for a in arcs):
                 self.fail("C10", "map.abscissa", where + ": distance to the source end is not the arc length of the "
                           "matched point (observation %d, edge %d)" % (k, e), arcs[:3], ds)
-                return
-        self.stats["matched_observations"] += nmatched
-        self.observed([nmatched, len(obs)])
+                return None
+        return nmatched
 
     def op_map(self, st):
         return self._map(st, st["obs"], "map")
